@@ -22,10 +22,11 @@ from . import rgen
 def _run_one(cfg):
     from .robserve import run_config
     from .rtrans import translate, enc_cfg, enc_history
+    from .oracles import scan
     r = run_config(cfg)
     ev, notes = translate(r["log"])
     return {"cfg_enc": enc_cfg(cfg), "hist_enc": enc_history(ev),
-            "events": [e[0] for e in ev], "notes": notes, "nraw": len(r["log"])}
+            "events": [e[0] for e in ev], "notes": notes, "nraw": len(r["log"]), "oracles": scan(cfg, r["log"])}
 
 
 _POOL = None
@@ -61,7 +62,9 @@ def drop_job(cfg, i):
 class RProp(Prop):
     """level: the acceptance level the theorems assume; monitors: ids of coq monitors"""
 
-    def __init__(self, pid, level, monitors, profile=None, rule="", side=None, max_jobs=12, nontrivial=None):
+    def __init__(self, pid, level, monitors, profile=None, rule="", side=None, max_jobs=12, nontrivial=None,
+                 oracles=()):
+        self.oracles = tuple(oracles)
         self.pid = pid
         self.level = level
         self.monitors = monitors
@@ -146,6 +149,11 @@ class RProp(Prop):
                 sp = self.side(cfg, r)
                 if sp:
                     problems.append(("specfail", sp))
+            # direct reading of the property on the raw log (harness/oracles.py)
+            for name in self.oracles:
+                v = r.get("oracles", {}).get(name)
+                if v:
+                    problems.append(("specfail", dict(v, oracle=name)))
             for kind in ("specfail", "mismatch"):
                 ps = [p for p in problems if p[0] == kind]
                 if ps:
@@ -225,35 +233,35 @@ def has_nested(cfg, r):
 
 
 PROPS = {
-    "C01": RProp("C01", 0, [10], profile={"edge": 0.6, "yields": 0.4, "nested": 0.3, "tie": 0.7, "never": 0.05},
+    "C01": RProp("C01", 0, [10], oracles=['reqs_first'], profile={"edge": 0.6, "yields": 0.4, "nested": 0.3, "tie": 0.7, "never": 0.05},
                  rule="C01: at every EStart/EBegin the monitor requires every requirement (and every requirement of the "
                       "enclosing nested scheduler) to be done in the state implied by the events so far. Non-trivial = "
                       "the tree has at least one requirement edge.",
                  nontrivial=has_edges),
-    "C02": RProp("C02", 0, [20, 41], profile={"forever": 0.3, "exc": 0.4, "maxdur": 3, "window": 0.5, "tie": 0.6, "edge": 0.5},
+    "C02": RProp("C02", 0, [20, 41], oracles=['once', 'success_complete'], profile={"forever": 0.3, "exc": 0.4, "maxdur": 3, "window": 0.5, "tie": 0.6, "edge": 0.5},
                  rule="C02: at every EStart/EBegin the job must not have started before; at every observed end of a run "
                       "with verdict True every non-forever member must be done in the state implied by the events so far. "
                       "Non-trivial = at least 3 jobs.",
                  nontrivial=lambda cfg, r: len(cfg["jobs"]) > 3),
-    "C04": RProp("C04", 0, [41], profile={"crit": 0.5, "exc": 0.45, "timeout": 0.7, "root_timeout": 0.6, "maxdur": 4, "nested": 0.35},
+    "C04": RProp("C04", 0, [41], oracles=['success_complete'], profile={"crit": 0.5, "exc": 0.45, "timeout": 0.7, "root_timeout": 0.6, "maxdur": 4, "nested": 0.35},
                  rule="C04: at every observed end of a run the verdict (True / False / raised exception identity) is compared "
                       "with the classification (all non-forever done, some critical raised, timeout) of the state implied by the "
                       "events so far; failed_time_out()/failed_critical() are compared at every poll. Non-trivial = the "
                       "run is not a plain success.",
                  nontrivial=lambda cfg, r: (r["notes"].get("outcome") or ["true"])[0] != "true" or any(
                      j["sched"] and j["timeout"] is not None for j in cfg["jobs"])),
-    "C05": RProp("C05", 2, [51, 52, 41], profile={"crit": 0.6, "exc": 0.5, "window": 0.6, "tie": 0.5, "nested": 0.3, "never": 0.1},
+    "C05": RProp("C05", 2, [51, 52, 41], oracles=['no_start_after_exit'], profile={"crit": 0.6, "exc": 0.5, "window": 0.6, "tie": 0.5, "nested": 0.3, "never": 0.1},
                  rule="C05: at the main wake that leaves the loop everything pending must be doomed (cancel requested / "
                       "cancelling), nothing created; no job starts while its scheduler is not in its main loop; verdict "
                       "classification; acceptance up to level 2 (timing: the clock only moves when nothing is unreported). "
                       "Non-trivial = some critical job raises.",
                  nontrivial=lambda cfg, r: any((not j["sched"]) and j["crit"] and j["out"] == "exc" for j in cfg["jobs"])),
-    "C08": RProp("C08", 2, [52, 51, 41], profile={"timeout": 0.8, "root_timeout": 0.7, "never": 0.25, "window": 0.5, "nested": 0.35},
+    "C08": RProp("C08", 2, [52, 51, 41], oracles=['no_start_after_exit'], profile={"timeout": 0.8, "root_timeout": 0.7, "never": 0.25, "window": 0.5, "nested": 0.35},
                  rule="C08: expiry takes the timeout path (monitor chk_exit), nothing starts afterwards, timeout verdict; "
                       "acceptance up to level 2 compares the timeout argument of every asyncio.wait call and the instant of "
                       "every clock jump. Non-trivial = some scheduler has a timeout.",
                  nontrivial=lambda cfg, r: any(j["sched"] and j["timeout"] is not None for j in cfg["jobs"])),
-    "C09": RProp("C09", 2, [52, 51, 111, 41], profile={"forever": 0.45, "never": 0.3, "window": 0.5, "nested": 0.3},
+    "C09": RProp("C09", 2, [52, 51, 111, 41], oracles=['no_start_after_exit'], profile={"forever": 0.45, "never": 0.3, "window": 0.5, "nested": 0.3},
                  rule="C09: at the wake that completes the non-forever jobs only forever jobs are pending and all are "
                       "cancelled there; none starts later; nothing below a finished run is live. Non-trivial = at least one "
                       "forever job.",
@@ -262,13 +270,13 @@ PROPS = {
                  rule="C10: a nested scheduler starts under the job rules (chk01, chk_nostart, parent window at level 1) and "
                       "its verdict / bubbling exception identity is classified by chk_end. Non-trivial = nesting depth >= 2.",
                  nontrivial=has_nested, max_jobs=14),
-    "C11": RProp("C11", 3, [111, 51], profile={"nested": 0.45, "timeout": 0.7, "cdur": 0.5, "sdur": 0.6, "never": 0.25, "crit": 0.4, "exc": 0.4},
+    "C11": RProp("C11", 3, [111, 51], oracles=['handlers_over'], profile={"nested": 0.45, "timeout": 0.7, "cdur": 0.5, "sdur": 0.6, "never": 0.25, "crit": 0.4, "exc": 0.4},
                  rule="C11: at every announced end of a run nothing below it is live (monitor chk_over); acceptance at level 3 "
                       "must end in a terminal model state; run-time side condition: after run() returned the loop is kept "
                       "running for a grace period, no event may be logged and no task may be left. Non-trivial = nested "
                       "schedulers present.",
                  nontrivial=has_nested, side=orphan_side),
-    "C07": RProp("C07", 1, [70], profile={"window": 0.9, "exc": 0.4, "cdur": 0.5, "timeout": 0.6, "nested": 0.35, "crit": 0.4,
+    "C07": RProp("C07", 1, [70], oracles=['window'], profile={"window": 0.9, "exc": 0.4, "cdur": 0.5, "timeout": 0.6, "nested": 0.35, "crit": 0.4,
                                           "tie": 0.5, "never": 0.15},
                  rule="C07: after every event the number of direct jobs of each windowed scheduler whose body is executing "
                       "(entered, not yet left, in the state implied by the events so far; a nested scheduler counts as one "
@@ -285,7 +293,7 @@ PROPS = {
                       "jump to happen in a quiescent model state and to reach exactly the next deadline. Non-trivial = the "
                       "tree has a requirement edge or a windowed scheduler with more direct jobs than its window.",
                  nontrivial=lambda cfg, r: has_edges(cfg, r) or has_tight_window(cfg, r)),
-    "C13": RProp("C13", 3, [130, 111], profile={"nested": 0.45, "timeout": 0.6, "sdur": 0.75, "sd_never": 0.15, "cdur": 0.3,
+    "C13": RProp("C13", 3, [130, 111], oracles=['shutdown_once', 'shutdown_quiet', 'shutdown_bound', 'handlers_over'], profile={"nested": 0.45, "timeout": 0.6, "sdur": 0.75, "sd_never": 0.15, "cdur": 0.3,
                                                  "never": 0.2, "crit": 0.4, "exc": 0.4, "sdto_none": 0.1},
                  rule="C13: when a co_shutdown() handler starts it must not have started before and no job of the same "
                       "scheduler may be live in the state implied by the events so far; at the end of every run that went "
